@@ -175,18 +175,20 @@ def repo_sources():
 
 
 HARNESS_KINDS = {
-    # name: (main source, repo translation units)
-    'lock': ('hx_lock.cpp', ['src/lock/pessimistic_lock.cpp', 'src/lock/optimistic_lock.cpp', 'src/lock/mcs_lock.cpp']),
+    # name: (main source, repo translation units, extra flags)
+    'lock': ('hx_lock.cpp', ['src/lock/pessimistic_lock.cpp', 'src/lock/optimistic_lock.cpp', 'src/lock/mcs_lock.cpp'], []),
+    'thread': ('hx_thread.cpp', ['src/thread/epoch_manager.cpp', 'src/thread/component/epoch.cpp',
+                                 'src/thread/epoch_guard.cpp'], ['-DVERIF_SHIM_HEARTBEAT']),
 }
 
 
 def build_harness(kind, retry=1, nthread=4, sanitize=False):
     """Compile the harness `kind` against /repo's current working tree. Returns path of the binary.
     Raises FrameworkError with the compiler output when it does not build."""
-    main_src, tus = HARNESS_KINDS[kind]
+    main_src, tus, extra = HARNESS_KINDS[kind]
     flags = ['-std=c++20', '-O1', '-g', '-w', f'-DDBGROUP_MAX_THREAD_NUM={nthread}',
              f'-DCPP_UTILITY_SPINLOCK_RETRY_NUM={retry}', '-DCPP_UTILITY_BACKOFF_TIME=0',
-             f'-I{REPO}/include', f'-I{HARNESS}']
+             f'-I{REPO}/include', f'-I{REPO}/src', f'-I{HARNESS}'] + extra
     if sanitize:
         flags += ['-fsanitize=address,undefined', '-fno-sanitize-recover=all', '-fno-omit-frame-pointer']
     hsrc = [os.path.join(HARNESS, f) for f in os.listdir(HARNESS) if f.endswith(('.cpp', '.hpp'))]
